@@ -869,6 +869,8 @@ func (h *nodeHist) finish() {
 	grown := new(big.Int).Sub(znnSupply(h.nd), h.supply0)
 	h.out.Oracle(grown.Cmp(want) == 0, "znn-supply-grows-by-collected-rewards", M{"grown": Big(grown), "minted_by_rewards": Big(want)})
 
+	h.follower()
+
 	// the statistics used for the rewards do not depend on the consensus cache: a consensus module with a cold
 	// cache over the same chain reports the same statistics
 	cs2 := consensus.NewConsensus(db.NewMemDB(), h.nd.Ch, true)
@@ -906,4 +908,63 @@ func liquidityLateUpdate(out *Out) {
 		h.nd.Momentum()
 		h.observe()
 	}
+}
+
+// "identical on all nodes": a second node (chain + consensus + verifier + vm, no pillars) with a cold consensus
+// cache is fed the producer's chain through ChainBridge.InsertChain in batches. It re-executes every contract
+// receive (an Update whose credits differed would fail verification: changes hash) and must end with exactly the
+// same cursors, reward histories, deposits and epoch statistics.
+func (h *nodeHist) follower() {
+	f := OpenBare("")
+	defer f.Destroy()
+	top := h.nd.FrontierHeight()
+	okChain := true
+	for lo := uint64(2); lo <= top; {
+		hi := lo + uint64(40+h.rng.Intn(260))
+		if hi > top {
+			hi = top
+		}
+		ds := WireCopyAll(DetailedRange(h.nd.Ch, lo, hi))
+		if _, err := f.Br.InsertChain(ds); err != nil {
+			okChain = false
+			h.out.Oracle(false, "follower-accepts-the-producers-chain", M{"from": U64(lo), "to": U64(hi), "error": err.Error()})
+			break
+		}
+		lo = hi + 1
+	}
+	if !okChain {
+		return
+	}
+	h.out.Oracle(f.Frontier().Hash == FrontierOf(h.nd.Ch).Hash, "follower-accepts-the-producers-chain", M{"height": U64(top)})
+	for _, c := range rewardContracts {
+		ps, fs := h.nd.Ch.GetFrontierAccountStore(c), f.Ch.GetFrontierAccountStore(c)
+		a, b := h.readState(ps), h.readState(fs)
+		same := a.last == b.last && len(a.hist) == len(b.hist)
+		fa, fb := flatten(a.hist), flatten(b.hist)
+		if len(fa) != len(fb) {
+			same = false
+		}
+		for k, x := range fa {
+			y, ok := fb[k]
+			if !ok || x.znn.Cmp(y.znn) != 0 || x.qsr.Cmp(y.qsr) != 0 {
+				same = false
+			}
+		}
+		for addr := range h.addrIdx {
+			ad := addr
+			d1, _ := definition.GetRewardDeposit(ps.Storage(), &ad)
+			d2, _ := definition.GetRewardDeposit(fs.Storage(), &ad)
+			if d1.Znn.Cmp(d2.Znn) != 0 || d1.Qsr.Cmp(d2.Qsr) != 0 {
+				same = false
+			}
+		}
+		h.out.Oracle(same, "follower-credits-identical-rewards", M{"contract": contractName[c], "cursor_producer": I64(a.last), "cursor_follower": I64(b.last),
+			"entries_producer": I64(int64(len(fa))), "entries_follower": I64(int64(len(fb)))})
+	}
+	rd := f.Cs.FixedPillarReader(f.Ch.GetFrontierMomentumStore().Identifier())
+	for e, s := range h.stats {
+		st, err := rd.EpochStats(e)
+		h.out.Oracle(err == nil && st != nil && statsString(st) == s, "follower-computes-identical-epoch-statistics", M{"epoch": U64(e), "producer": s})
+	}
+	h.out.Count("node:follower-synced")
 }
